@@ -2363,6 +2363,20 @@ func ruleLexComment(c *Ctx) []Obligation {
 			}
 			if !okTerm {
 				bad = append(bad, fmt.Sprintf("exit after consuming %d rune(s) [%s]: a complete %q…%q comment has at least %d and ends in the terminator (decisions: %s)", st.off, st.factString(), al.open, strings.ReplaceAll(al.term, "\n", "LF"), need, strings.Join(st.decided, ", ")))
+				continue
+			}
+			// the comment ends at the FIRST terminator: at every body position the path must have refuted it
+			for k := len([]rune(al.open)); k < st.off-len(tr); k++ {
+				refuted := false
+				for i, ch := range tr {
+					if st.excludes(k+i, ch) {
+						refuted = true
+					}
+				}
+				if !refuted {
+					bad = append(bad, fmt.Sprintf("exit after consuming %d rune(s) [%s]: the rune(s) at offset %d were skipped without being tested against the terminator %q — if they are the terminator the skipper runs past the end of the comment and swallows the text behind it (decisions: %s)", st.off, st.factString(), k, strings.ReplaceAll(al.term, "\n", "LF"), strings.Join(st.decided, ", ")))
+					break
+				}
 			}
 		}
 		_ = info
